@@ -74,7 +74,7 @@ TReturn ==
     /\ last'.bad = ToSet(Ev.bad) /\ last'.called = ToSet(Ev.called)
     /\ ObsOK
 
-TCrash == IsEvent("Crash") /\ Crash(Ev.bs) /\ ObsOK
+TCrash == IsEvent("Crash") /\ Crash(Ev.bs, Ev.d # 0) /\ last'.d = Ev.d /\ ObsOK
 TRestart == IsEvent("Restart") /\ RS_Begin(Ev.ai) /\ last'.nr = Ev.nr /\ ObsOK
 TStarted == IsEvent("Started") /\ RS_Done /\ last'.failed = ToSet(Ev.failed) /\ last'.imp = ToSet(Ev.imp) /\ ObsOK
 TStartFailed == IsEvent("StartFailed") /\ RS_Failed /\ last'.failed = ToSet(Ev.failed) /\ last'.imp = ToSet(Ev.imp) /\ ObsOK
